@@ -53,6 +53,7 @@ class Ctx(object):
         self.notes = []
         self.analysed = {"functions": set(), "call_sites": 0, "cells": 0, "paths": 0, "mtus": 0, "rules": {}}
         self.instance_floor = []
+        self.errors = []
         self._cg = None
         self.current_rule = None
 
@@ -99,7 +100,11 @@ class Ctx(object):
         """instance floor: a rule matching fewer sites than confirmed by hand is analysis-broken"""
         self.instance_floor.append((rule, what, found, minimum))
         if found < minimum:
-            raise AnchorMissing("%s: %s: matched %d site(s), expected at least %d" % (rule, what, found, minimum))
+            # deferred: the other rules (and the rest of this one, as far as it gets) are still evaluated, so that a
+            # violation found elsewhere is reported; without any violation the run ends as ANALYSIS-ERROR / exit 2
+            self.errors.append("AnchorMissing: %s: %s: matched %d site(s), expected at least %d" % (rule, what, found, minimum))
+            return False
+        return True
 
     def require(self, rule, site, what, found, minimum=1):
         """a *mechanism* construct (guard, verification call, handler) must be present: its absence in an
@@ -166,7 +171,12 @@ def run_property(prop, rules_module, root, tier, replay=None, quiet=False, write
             if replay and replay.get("rule") != rid:
                 continue
             ctx.current_rule = rid
-            fnc(ctx)
+            try:
+                fnc(ctx)
+            except AnalysisError as e:
+                ctx.errors.append("%s: %s: %s" % (rid, type(e).__name__, e))
+            except Exception as e:      # internal error inside one rule: never an alarm, the other rules still run
+                ctx.errors.append("%s: internal %s: %s | %s" % (rid, type(e).__name__, e, traceback.format_exc().strip().splitlines()[-3:]))
     except AnalysisError as e:
         print("ANALYSIS-ERROR property=%s %s: %s" % (prop, type(e).__name__, e))
         return 2
@@ -200,8 +210,12 @@ def run_property(prop, rules_module, root, tier, replay=None, quiet=False, write
         print("VIOLATION property=%s replay=%s" % (prop, rp))
         code = 1
 
+    for err in ctx.errors:
+        print("ANALYSIS-ERROR property=%s %s" % (prop, err))
+    if ctx.errors and code == 0:
+        code = 2
     wall = time.time() - t0
-    if write_evidence and not replay:
+    if write_evidence and not replay and code != 2:
         ev = make_evidence(prop, rules_module, ctx, tier, seed, wall, unknown, reported_known)
         with open(os.path.join(edir, "%s.json" % prop), "w") as f:
             json.dump(ev, f, indent=1, default=str)
@@ -247,6 +261,7 @@ def make_evidence(prop, rules_module, ctx, tier, seed, wall, unknown, reported_k
             "instance_floors": [{"rule": r, "what": w, "found": f, "minimum": m} for (r, w, f, m) in ctx.instance_floor],
         },
         "known_findings_reported": [o.key for o in reported_known],
+        "analysis_errors": list(ctx.errors),
         "notes": ctx.notes,
         "exhaustive": True,
         "trusted_base": ["CPython ast / symtable / re._parser / struct.calcsize", "engine/*.py of /verif"],
